@@ -288,7 +288,10 @@ func TestC07(t *testing.T) {
 					}
 				},
 				"readAfterEOF": func(rt *rapid.T) {
-					c := s.pick(rt, func(c *c07Conn) bool { return c.last != nil && c.cur == nil })
+					// (only while the connection is in order: once a later message of it has failed half-way,
+					// the connection's one reader object is inside that message, and a Read on the old handle
+					// waits for the rest of it like any other Read)
+					c := s.pick(rt, func(c *c07Conn) bool { return c.alive && c.last != nil && c.cur == nil })
 					if c == nil {
 						return
 					}
